@@ -50,14 +50,16 @@ def isContainerAt (root : Obj) (a : Addr) : Bool :=
   | none => false
 
 /-- Component that `Object::get_path` emits for the child reached by step `s`.
-    `none` is the Rust panic (`position(..).unwrap()` on a named-only child
-    without a valid name). -/
+    A named-only child without a valid name of its own (held under the key `""`,
+    or with `"#n": ""`) is addressed by the key under which the parent's named
+    content holds it, as a name component.  Never `none` (the `Option` is kept
+    for the callers that were written against the panicking version). -/
 def compOfChild (child : Obj) (s : Step) : Option Comp :=
   match child.validName with
   | some n => some (.name n.toList)
   | none => match s with
     | .idx i => some (.idx i)
-    | .named _ => none
+    | .named k => some (.name k.toList)
 
 /-- Components of `Object::get_path` for the object at `a`. -/
 def compsOf (root : Obj) : Addr → Option (List Comp)
@@ -147,7 +149,8 @@ def pointerAtPath (root : Obj) (path : Path) : Out Ptr :=
       match last with
       | .idx i =>
         let r := contentAtPath root [] path.comps.dropLast
-        (r, { container := if isContainerAt root r.addr then some r.addr else none, index := i },
+        -- `index as i32`: the `usize` index is truncated to 32 bits
+        (r, { container := if isContainerAt root r.addr then some r.addr else none, index := wrapI32 i },
           path.comps.length - 1)
       | .name _ =>
         let r := contentAtPath root [] path.comps
